@@ -768,3 +768,22 @@ Proof.
   destruct (rfinal_keeps g i pre _ H0 H1 HF) as [Hin _].
   cbn [rstep snd]. apply in_map_iff. exists (i, g). split; [reflexivity|exact Hin].
 Qed.
+
+(** any number of sibling watchers (other generations, other ids) subscribing and stopping *)
+Definition siblings (l : list instance) (sibs : list (nat * nat)) : list wev :=
+  flat_map (fun x => [WSub (fst x) (snd x) l; WStop (fst x)]) sibs.
+
+Lemma siblings_quiet g i l sibs :
+  (forall g' i', In (g', i') sibs -> g' <> g /\ i' <> i) -> Forall (quiet_for g i) (siblings l sibs).
+Proof.
+  intro H. induction sibs as [|[g' i'] t IH]; [constructor|].
+  destruct (H g' i' (or_introl eq_refl)) as [Hg Hi]. cbn [siblings flat_map app fst snd].
+  constructor; [cbn; auto|]. constructor; [cbn; exact Hg|].
+  apply IH. intros g2 i2 H2. apply H. right. exact H2.
+Qed.
+
+Lemma siblings_harmless g i l l' st sibs r :
+  other_ids_differ g i st ->
+  (forall g' i', In (g', i') sibs -> g' <> g /\ i' <> i) ->
+  In (g, r) (snd (rstep (rfinal (fst (rstep st (WSub g i l))) (siblings l' sibs)) (WReport r))).
+Proof. intros Hd H. apply live_generation_receives; [exact Hd|apply siblings_quiet; exact H]. Qed.
